@@ -21,8 +21,9 @@ from mirsmt.interp import Inconclusive, PathEnd
 
 
 class Scen:
-    def __init__(self, name, ty='C', feature=0, rule=None, budget=None, delay=False, durs=(0,), fails=None):
+    def __init__(self, name, ty='C', feature=0, rule=None, budget=None, delay=False, durs=(0,), fails=None, nsteps=1):
         self.name, self.ty, self.feature, self.rule = name, ty, feature, rule
+        self.nsteps = nsteps                         # steps the scenario has in its source (0: a step-less draft scenario)
         self.budget, self.delay = budget, delay      # retry budget (None = no retry options), delay configured?
         self.durs = durs                             # polls the attempt k stays Pending
         self.fails = fails                           # None = symbolic per attempt, or tuple of bools
@@ -143,6 +144,12 @@ def simulate(chk, world, max_polls=40, loop_bound=14, sleep_polls=1):
                     ir_args = []
                     for i_, (loc_, pty_) in enumerate(insert_retried.params):
                         pn = [n_ for n_, p_ in insert_retried.debug.items() if p_ == '_%d' % (i_ + 1)]
+                        if pty_.endswith('Instant'):
+                            # an instant handed in by run_scenario: which one the real run_scenario passes is decided
+                            # by the attempt-level harness (checks/attempt.py); here the attempt is abstract and
+                            # ends at the current reading of the clock
+                            ir_args.append(M.tick(ex2))
+                            continue
                         if not pn or pn[0] not in have or have[pn[0]] is None:
                             raise Inconclusive('insert_retried_scenario parameter %s' % (pn or [i_],))
                         val_ = have[pn[0]]
@@ -179,7 +186,20 @@ def simulate(chk, world, max_polls=40, loop_bound=14, sleep_polls=1):
         if not nm or not nm.startswith('feat'):
             raise Inconclusive('count_scenarios on %r' % (r,))
         return bv(len([s for s in world.scens if s.feature == int(nm[4:])]))
-    M.table['Ext::count_scenarios'] = count_scen
+    orig_cs = M.table.get('Ext::count_scenarios')
+
+    def count_scen_real_first(ex_, info, a, dty):
+        # features built by the ingester are concrete: the REAL count_scenarios runs on them; only an unconstrained
+        # feature falls back to the world's number
+        r = ex_.materialize(a[0])
+        tgt = ex_.read_path(r.cell, r.path) if isinstance(r, Ref) else r
+        tgt = ex_.materialize(tgt)
+        if isinstance(tgt, Adt) and any(isinstance(ex_.materialize(v), Obj) for v in tgt.fields.values()):
+            b = ex_.prog.resolve(info)
+            if b is not None:
+                return ex_.call_body(b, a)
+        return count_scen(ex_, info, a, dty)
+    M.table['Ext::count_scenarios'] = count_scen_real_first
     rule_sc = prog.tables.struct_fields('gherkin::Rule').index('scenarios')
 
     def run(ex_):
@@ -336,7 +356,8 @@ def make_ingester(ex, M, prog, world, fv, real, parser):
             rules = [9]
 
         def scv(s):
-            return tagsets.gherkin_node(prog, 'gherkin::Scenario', s.name, [], {})
+            return tagsets.gherkin_node(prog, 'gherkin::Scenario', s.name, [], {
+                'steps': Obj('vec', items=tuple(Lazy('gherkin::Step', '%s.step%d' % (s.name, k_)) for k_ in range(getattr(s, 'nsteps', 1))), ty='Vec<Step>')})
         rv = [tagsets.gherkin_node(prog, 'gherkin::Rule', 'rule%d' % ri, [], {
             'scenarios': Obj('vec', items=tuple(scv(s) for s in world.scens if s.feature == fi and s.rule == ri), ty='Vec<Scenario>')}) for ri in rules]
         feat = tagsets.gherkin_node(prog, 'gherkin::Feature', 'feat%d' % fi, [], {
@@ -458,6 +479,35 @@ def oracles(world, res):
     if world.limit is not None:
         worst = max([len(e[3]) + 1 for e in starts] or [0])
         out['in-flight<=limit'] = 'up to %d attempts in flight with limit %d' % (worst, world.limit) if worst > world.limit else None
+        # the limit is also reached: once an attempt completes while a scenario is still queued and a slot is free, the
+        # runner starts something before another attempt that still needs >= 3 more polls completes (head-of-line blocking
+        # or waiting for the whole batch would be visible here).  Only worlds of concurrent scenarios that are all in the
+        # storage from the beginning and run without fail-fast or delays are judged.
+        if all(s.ty == 'C' and not s.delay for s in world.scens) and world.parser is None and not world.fail_fast:
+            sf = [e for e in tl if e[0] in ('start', 'finish')]
+            bad = []
+            for i, e in enumerate(sf):
+                if e[0] != 'finish':
+                    continue
+                before = sf[:i + 1]
+                inflight = [(x[1], x[2]) for x in before if x[0] == 'start' and not any(y[0] == 'finish' and y[1:3] == x[1:3] for y in before)]
+                queued = [n for n in names if not any(x[0] == 'start' and x[1] == n for x in before)]
+                if not queued or not inflight or len(inflight) >= world.limit:
+                    continue
+                mine = spec[e[1]].durs[min(e[2], len(spec[e[1]].durs) - 1)]
+                my_start = [k for k, x in enumerate(sf) if x[0] == 'start' and x[1:3] == e[1:3]][0]
+                for (zn, za) in inflight:
+                    zs = [k for k, x in enumerate(sf) if x[0] == 'start' and x[1:3] == (zn, za)][0]
+                    same_group = all(x[0] == 'start' for x in sf[min(zs, my_start):max(zs, my_start) + 1])
+                    zd = spec[zn].durs[min(za, len(spec[zn].durs) - 1)]
+                    if not same_group or zd - mine < 3:
+                        continue
+                    zf = [k for k, x in enumerate(sf) if x[0] == 'finish' and x[1:3] == (zn, za)]
+                    nxt = [k for k, x in enumerate(sf) if x[0] == 'start' and k > i]
+                    if zf and (not nxt or nxt[0] > zf[0]):
+                        bad.append('%s#%d completed with %s still queued and %d of %d slots in use, but nothing was started until %s#%d (which needed %d more polls) completed'
+                                   % (e[1], e[2], queued, len(inflight), world.limit, zn, za, zd - mine))
+            out['free-slots-refilled-after-each-completion'] = '; '.join(bad) if bad else None
     # C07
     bad = []
     for e in starts:
@@ -656,7 +706,8 @@ def world_script(world, res, scale=1, custom_classifier=False):
             if tags:
                 lines.append('| %s%s' % (ind, ' '.join(tags)))
             lines.append('| %sScenario: %s' % (ind, s.name))
-            lines.append('| %s  Given st%s' % (ind, s.name))
+            if getattr(s, 'nsteps', 1) > 0:
+                lines.append('| %s  Given st%s' % (ind, s.name))
             fl = fails.get(s.name, {})
             nfail = 0
             while fl.get(nfail):
@@ -780,7 +831,9 @@ def confirm_native(chk, o, prop, name):
             tried.append('x%d: driver failed' % scale)
             continue
         done = not r.get('timeout')
-        if name == 'terminates':
+        if name == 'completes':
+            err = 'a panic escaped the real run: %s' % out.strip().splitlines()[-1][:160] if (r.get('escaped') or not r.get('stream_ended', False)) and not r.get('timeout') else None
+        elif name == 'terminates':
             err = None if done else 'the real runner did not end its event stream within the watchdog'
         elif name in ('panic-hook-silenced-while-running', 'panic-hook-restored'):
             import re as _re
